@@ -60,6 +60,7 @@ type c12Case struct {
 	Transport string    `json:"transport"` // msg | fail | garbage
 	Count     int32     `json:"count"`
 	Items     []c12Item `json:"items"`
+	IDMode    int       `json:"id_mode,omitempty"`  // direct: the response items echo the request items' unique batch item IDs: 1 in order, 2 reversed
 	Client    []int     `json:"client,omitempty"`   // dial: configured versions (indexes into allVers)
 	Enforced  int       `json:"enforced,omitempty"` // dial: 1+index of the enforced version, 0 = none
 }
@@ -288,6 +289,7 @@ func c12CoqResp(m *kmip.ResponseMessage, err error) string {
 // ------------------------------------------------------------------ running one case on the real client
 
 type c12Script struct {
+	idMode int
 	direct bool
 	resp   *kmip.ResponseMessage
 	err    error
@@ -302,6 +304,23 @@ func (s *c12Script) middleware(next kmipclient.Next, ctx context.Context, req *k
 	var err error
 	if s.direct {
 		r, err = s.resp, s.err
+		if s.idMode > 0 && r != nil && req != nil {
+			// the items echo unique batch item IDs of the request: in order, or reversed (a server is
+			// free to do so; which payload sits at which position is decided by position all the same)
+			cp := *r
+			cp.BatchItem = append([]kmip.ResponseBatchItem{}, r.BatchItem...)
+			n := len(req.BatchItem)
+			for i := range cp.BatchItem {
+				j := i
+				if s.idMode == 2 {
+					j = n - 1 - i
+				}
+				if j >= 0 && j < n {
+					cp.BatchItem[i].UniqueBatchItemID = append([]byte{}, req.BatchItem[j].UniqueBatchItemID...)
+				}
+			}
+			r = &cp
+		}
 	} else {
 		r, err = next(ctx, req)
 	}
@@ -343,7 +362,7 @@ type c12Out struct {
 }
 
 func c12Run(cs *c12Case) (out c12Out, sc *c12Script) {
-	sc = &c12Script{direct: cs.Mode == "direct"}
+	sc = &c12Script{direct: cs.Mode == "direct", idMode: cs.IDMode}
 	var answer []byte
 	switch cs.Transport {
 	case "msg":
@@ -783,6 +802,10 @@ func c12Gen(c *h.Ctx) []c12Case {
 						continue
 					}
 					add(c12Case{Mode: "direct", API: "batch", Ops: bs, Transport: "msg", Count: cnt, Items: []c12Item{a, b}})
+					if cnt == 2 {
+						add(c12Case{Mode: "direct", API: "batch", Ops: bs, Transport: "msg", Count: cnt, Items: []c12Item{a, b}, IDMode: 1})
+						add(c12Case{Mode: "direct", API: "batch", Ops: bs, Transport: "msg", Count: cnt, Items: []c12Item{a, b}, IDMode: 2})
+					}
 				}
 			}
 		}
